@@ -146,12 +146,13 @@ Example c09_string_examples :
 Proof. vm_compute. repeat split. Qed.
 
 (* BINARY (sdaiBinary.cc ReadBinary, called by STEPread with needDelims = 1): a quote, one or more
-   hexadecimal digits and a quote are read to exactly those digits without an error and nothing after
+   hexadecimal digits and a quote are read to exactly those digits (letters kept in upper case, as Part 21 spells them and as
+   they are written back) without an error and nothing after
    the closing quote is consumed; digits without the opening quote are never accepted silently. *)
 Theorem c09_binary_literal_read : forall ds rest,
   ds <> [] -> forallb is_xdigit ds = true ->
   read_binary (of_bytes (DQUOTE :: ds ++ DQUOTE :: rest)) SEVERITY_NULL true =
-  (Some ds, SEVERITY_NULL, mkS rest false false).
+  (Some (map up_hex ds), SEVERITY_NULL, mkS rest false false).
 Proof. exact binary_literal_read. Qed.
 Print Assumptions c09_binary_literal_read.
 
@@ -168,5 +169,6 @@ Proof. exact empty_binary_flagged. Qed.
 Print Assumptions c09_empty_binary_flagged.
 
 Example c09_binary_example :
-  read_binary (of_bytes [34; 48; 70; 34; 44]%N) SEVERITY_NULL true = (Some [48; 70]%N, SEVERITY_NULL, mkS [44%N] false false).
-Proof. vm_compute. reflexivity. Qed.
+  read_binary (of_bytes [34; 48; 70; 34; 44]%N) SEVERITY_NULL true = (Some [48; 70]%N, SEVERITY_NULL, mkS [44%N] false false) /\
+  read_binary (of_bytes [34; 50; 97; 98; 34; 44]%N) SEVERITY_NULL true = (Some [50; 65; 66]%N, SEVERITY_NULL, mkS [44%N] false false).
+Proof. vm_compute. split; reflexivity. Qed.
